@@ -109,7 +109,7 @@ def judge_run(res, scratch, text, chains, chrom_order, root, flip, what, base_ma
     req = [c for c in chrom_order.split(",") if c in ranges]
     for a, b in zip(req, req[1:]):
         if not ranges[a][1] < ranges[b][0]:
-            res.fail(f"{pre}chromosome-ranges", f"{what}: BO range of {a} {ranges[a]} is not entirely below that of {b} {ranges[b]} (requested order {chrom_order})", case)
+            res.fail("C06/chromosome-ranges", f"{what}: BO range of {a} {ranges[a]} is not entirely below that of {b} {ranges[b]} (requested order {chrom_order})", case)
     if base_map is not None and tags != base_map:
         diff = [n for n in base_map if tags.get(n) != base_map[n]][:4]
         owners = [c for c in chains if any(n in c.g.segs for n in diff)]
@@ -151,9 +151,20 @@ def multi_chrom(res, scratch, tier):
     firsts = [["snp"], ["insertion", "link"], ["nested"], []]
     second = gen.Chain(["deletion"], chrom="chr2", id_base=40, hap="hB#1#c", decl="rev")
     third = gen.Chain(["triallelic"], chrom="chrX", id_base=70, hap="hC#1#c", decl="alt", ends=("open", "tip"))
+    class OneNode:
+        """a chromosome that is a single segment (e.g. chrM): one chain element, a scaffold node"""
+
+        chrom, blocks, ends = "chrM", ["single-segment"], ("-", "-")
+
+        def __init__(self):
+            self.g = rgfa.Graph()
+            self.g.add_seg("m1", "ACGTACGT", [("LN", "i", "8"), ("SN", "Z", "chrM"), ("SO", "i", "0"), ("SR", "i", "0")])
+            self.order = [("s", "m1")]
+
+    single = OneNode()
     for bl in firsts:
         c1 = gen.Chain(bl, chrom="chr1", decl="alt")
-        for chains in ([c1, second], [c1, second, third]):
+        for chains in ([c1, second], [c1, second, third], [c1, single, second]):
             g = gen.merge_graphs([c.g for c in chains])
             names = [c.chrom for c in chains]
             for perm in itertools.permutations(names):
@@ -201,7 +212,7 @@ def replay(case, scratch):
             if n in comp:
                 sub.segs[n] = g.segs[n]
         sub.links = [l for l in g.links if l.a in comp and l.b in comp]
-        order = gen.chain_order_by_model(sub)
+        order = gen.chain_order_by_model(sub) if len(sub.segs) > 1 else [("s", next(iter(sub.segs)))]
         names = [s.SN for s in sub.segs.values() if s.SR == 0]
 
         class C:
